@@ -38,6 +38,7 @@ class Ctx:
         self.assumptions = []
         self.events = []          # analysis events (input mutated, skipped warn-branches, ...)
         self.nsym_min = {}
+        self.nsym_max = {}        # atom id -> upper bound (only set by a decided size comparison, see compare_scalar)
 
     def size_symbol(self, name, nmin=None):
         r = Rat.atom(('N', name))
@@ -97,9 +98,33 @@ class Ctx:
         mp = {a: Poly({((a, 1),): Fraction(1)}) + self.nsym_min[a] for a in at}
         return p.subs(mp)
 
+    def _n_affine(self, p: Poly, lower: bool):
+        """bound of an affine polynomial in the size symbols from their [min, max] ranges; None if p is not affine"""
+        tot = Fraction(0)
+        for m, c in p.t.items():
+            if m == ():
+                tot += c
+                continue
+            if len(m) != 1 or m[0][1] != 1 or m[0][0] not in self.nsyms:
+                return None
+            a = m[0][0]
+            use_min = (c > 0) == lower
+            if use_min:
+                tot += c * self.nsym_min[a]
+            else:
+                mx = self.nsym_max.get(a)
+                if mx is None:
+                    return -INF if lower else INF
+                tot += c * mx
+        return tot
+
     def _n_lower(self, p: Poly):
         if p.is_const():
             return p.const_value()
+        if self.nsym_max:
+            v = self._n_affine(p, True)
+            if v is not None:
+                return v
         q = self._n_shift(p)
         if q is None:
             return -INF
@@ -111,6 +136,10 @@ class Ctx:
     def _n_upper(self, p: Poly):
         if p.is_const():
             return p.const_value()
+        if self.nsym_max:
+            v = self._n_affine(p, False)
+            if v is not None:
+                return v
         q = self._n_shift(p)
         if q is None:
             return INF
@@ -162,6 +191,59 @@ class Ctx:
         if hi < 0:
             return False
         raise AnalysisError(f"undecidable index comparison: {a} <= {b}")
+
+    def size_predicate(self, d: Rat):
+        """(atom, coefficient, constant) if d == c*N + k for one size symbol N and constants c != 0, k; else None"""
+        if d.den:
+            return None
+        p = d.num
+        ats = p.atoms()
+        if len(ats) != 1:
+            return None
+        a = next(iter(ats))
+        if a not in self.nsyms or p.degree_in(a) != 1:
+            return None
+        c = p.coeff_of(a, 1)
+        k = p.without(a)
+        if not c.is_const() or not k.is_const() or c.const_value() == 0:
+            return None
+        return a, c.const_value(), k.const_value()
+
+    def assume_size(self, d: Rat, op: str, truth: bool):
+        """refine the range of the size symbol of d = c*N + k with the decided comparison (d op 0) == truth.  Returns False when
+        the refined set is not an interval (N != k0): the caller splits further."""
+        import math
+        a, c, k = self.size_predicate(d)
+        x0 = Fraction(-k) / Fraction(c)               # d == 0 at N == x0
+        if not truth:
+            op = {'<': '>=', '<=': '>', '>': '<=', '>=': '<', '==': '!=', '!=': '=='}[op]
+        if c < 0 and op in ('<', '<=', '>', '>='):
+            op = {'<': '>', '<=': '>=', '>': '<', '>=': '<='}[op]     # in terms of N - x0
+        lo, hi = self.nsym_min[a], self.nsym_max.get(a)
+        if op == '>':
+            lo = max(lo, math.floor(x0) + 1)
+        elif op == '>=':
+            lo = max(lo, math.ceil(x0))
+        elif op == '<':
+            h = math.ceil(x0) - 1
+            hi = h if hi is None else min(hi, h)
+        elif op == '<=':
+            h = math.floor(x0)
+            hi = h if hi is None else min(hi, h)
+        elif op == '==':
+            if x0.denominator != 1:
+                raise AnalysisError("size comparison decided true for a non-integer size")
+            lo = max(lo, int(x0))
+            hi = int(x0) if hi is None else min(hi, int(x0))
+        else:
+            return False
+        if hi is not None and hi < lo:
+            raise AnalysisError(f"infeasible size range [{lo}, {hi}] after a decided size comparison")
+        self.nsym_min[a] = lo
+        if hi is not None:
+            self.nsym_max[a] = hi
+        self.assumptions.append(f"size comparison {d} {op} 0 assumed on this path: {lo} <= N" + (f" <= {hi}" if hi is not None else ''))
+        return True
 
     def is_index_like(self, r: Rat):
         if r.den:
@@ -951,6 +1033,21 @@ def compare_scalar(ctx, op, a: Rat, b: Rat):
         s = ctx.sign(d)
         if s is not None:
             return {'<': s == '-', '<=': s in '-0', '>': s == '+', '>=': s in '+0', '==': s == '0', '!=': s != '0'}[op]
+        # a comparison of a cell count with a constant that the size range does not decide (`if Nx > 50:`): both outcomes are
+        # feasible, so the job is explored once per outcome with the size range refined accordingly (interp.JobFork)
+        sp = ctx.size_predicate(d)
+        if sp is not None:
+            from . import interp as _I
+            fk = _I.JOB_FORK
+            if fk is not None:
+                where = f"size comparison {a} {op} {b}"
+                truth = fk.decide(Rat.atom(('sizepred', op, str(d))), where)
+                if not ctx.assume_size(d, op, truth):
+                    # N != x0: split into N < x0 and N > x0
+                    below = fk.decide(Rat.atom(('sizepred', '<', str(d))), f"size comparison {a} < {b}")
+                    c_ = sp[1]
+                    ctx.assume_size(d, '<' if c_ > 0 else '>', True) if below else ctx.assume_size(d, '>' if c_ > 0 else '<', True)
+                return truth
         if op in ('==', '!='):
             e = ctx.eq(a, b)
             return e if op == '==' else not e
